@@ -17,7 +17,7 @@ Ltac jcase A :=
         | discriminate A ].
 
 Ltac startE HS HE Hg H s :=
-  intros HS HE Hg H; destruct Hc as [Hb Hn]; open_state s; cbn in H, Hg; unfold flow in H; cbn in H.
+  intros HS HE Hg H; destruct Hc as [Hb Hn Hdm]; open_state s; cbn in H, Hg; unfold flow in H; cbn in H.
 
 Lemma presE_Append s e s' :
   InvS s -> InvE g c s -> (g = true -> mail_first_okb s (Append e) = true) -> step c s (Append e) = Some s' -> InvE g c s'.
